@@ -1764,3 +1764,69 @@ package gomatrixserverlib
 //@   property C18:safety
 //@   requires 0 <= index && index <= len(input)
 //@   requires (len(input) - index >= 4) ==> (index + 4 < len(input) && (input[index+4] == 92 ==> index + 5 < len(input)))
+
+// ---------------------------------------------------------------- C14: federation verification
+
+//@ func VerifyAuthRulesAtState
+//@   property C14, C18:safety
+//@   requires sp != nil && eventToVerify != nil && userIDForSender != nil && ctx != nil
+//@   ensures fast-path-only-if-every-auth-event-is-in-the-state: (result == nil && !called(checkAllowedByAuthEvents)) ==> (allowValidation && (forall i int :: 0 <= i && i < len(eventToVerify.AuthEventIDs()) ==> (exists j int :: 0 <= j && j < len(sp.StateIDsBeforeEvent(ctx, eventToVerify)[0]) && sp.StateIDsBeforeEvent(ctx, eventToVerify)[0][j] == eventToVerify.AuthEventIDs()[i])))
+//@   ensures slow-path-checks-auth: (result == nil && called(checkAllowedByAuthEvents)) ==> ret(checkAllowedByAuthEvents) == nil
+//@   calls checkAllowedByAuthEvents@root against-the-state-before-the-event: event == eventToVerify && eventsByID == sp.StateBeforeEvent(ctx, eventToVerify.Version(), eventToVerify, sp.StateIDsBeforeEvent(ctx, eventToVerify)[0])[0] && missingAuth == nil && userIDForSender == root_userIDForSender
+//@   loop 1: invariant 0 <= idx(1) && idx(1) <= len(eventToVerify.AuthEventIDs()) && (forall i int :: 0 <= i && i < idx(1) ==> (exists j int :: 0 <= j && j < len(stateIDs) && stateIDs[j] == eventToVerify.AuthEventIDs()[i]))
+//@   loop 2: invariant 0 <= idx(2) && idx(2) <= len(stateIDs)
+
+// Safety of this function (and of AuthEvents as a provider) is not part of the C18 claim: Allowed's
+// preconditions about providers are assumptions on caller-supplied providers.
+//@ func checkAllowedByAuthEvents
+//@   property C14
+//@   nosafety
+//@   requires event != nil && userIDForSender != nil
+//@   ensures authorised-by-the-collected-auth-events: result == nil ==> (called(Allowed) && ret(Allowed) == nil)
+//@   calls Allowed@root the-event-itself: event == root_event && userIDQuerier == root_userIDForSender
+
+//@ func (EventJSONs).UntrustedEvents
+//@   property C14, C18:safety
+//@   ensures no-nil-events: forall i int :: 0 <= i && i < len(result) ==> result[i] != nil
+//@   loop 1: invariant 0 <= idx(1) && idx(1) <= len(e) && (forall i int :: 0 <= i && i < len(events) ==> events[i] != nil)
+
+// VerifyAllEventSignatures: one verdict per event, in order (its loop is C06's VerifyEventSignatures per element)
+//@ func VerifyAllEventSignatures
+//@   property C14
+//@   nosafety
+//@   purecallbacks
+//@   requires userIDForSender != nil
+//@   ensures one-verdict-per-event: len(result) == len(events)
+//@   loop 1: invariant 0 <= idx(1) && idx(1) <= len(events) && len(errors) == idx(1)
+
+//@ func CheckStateResponse
+//@   property C14
+//@   nosafety
+//@   results authOut, stateOut, err
+//@   requires r != nil && userIDForSender != nil && ctx != nil
+//@   calls VerifyAllEventSignatures@root with-the-callers-verifier: verifier == root_keyRing && userIDForSender == root_userIDForSender
+//@   calls checkAllowedByAuthEvents@root first-lookup-table-holds-only-verified-events: !called(checkAllowedByAuthEvents) ==> (forall id string :: id in eventsByID ==> (exists i int :: 0 <= i && i < len(arg(VerifyAllEventSignatures, 1)) && arg(VerifyAllEventSignatures, 1)[i] == eventsByID[id] && ret(VerifyAllEventSignatures)[i] == nil))
+//@   loop 1: invariant 0 <= idx(1) && idx(1) <= len(authEvents)
+//@   loop 2: invariant 0 <= idx(2) && idx(2) <= len(stateEvents)
+//@   loop 3: invariant 0 <= idx(3) && idx(3) <= len(allEvents) && (forall i int :: 0 <= i && i < idx(3) ==> (errors[i] != nil ==> allEvents[i].EventID() in failures))
+//@   loop 4: invariant 0 <= idx(4) && idx(4) <= len(allEvents) && (forall id string :: id in eventsByID ==> (exists i int :: 0 <= i && i < len(allEvents) && allEvents[i] == eventsByID[id] && errors[i] == nil))
+//@   loop 5: invariant 0 <= idx(5) && idx(5) <= len(allEvents) && (!called(checkAllowedByAuthEvents) ==> (forall id string :: id in eventsByID ==> (exists i int :: 0 <= i && i < len(allEvents) && allEvents[i] == eventsByID[id] && errors[i] == nil)))
+
+//@ func CheckSendJoinResponse
+//@   property C14
+//@   nosafety
+//@   requires r != nil && userIDForSender != nil && ctx != nil && joinEvent != nil
+//@   ensures accepted-only-if-the-join-is-allowed-twice: result[1] == nil ==> (called(CheckStateResponse) && ret(CheckStateResponse, 2) == nil && called(checkAllowedByAuthEvents) && ret(checkAllowedByAuthEvents) == nil && called(Allowed) && ret(Allowed) == nil)
+//@   calls CheckStateResponse@root the-whole-response: r == root_r && roomVersion == root_roomVersion && keyRing == root_keyRing && userIDForSender == root_userIDForSender
+//@   calls checkAllowedByAuthEvents@root the-join-event-against-its-auth-events: event == root_joinEvent && userIDForSender == root_userIDForSender
+//@   calls Allowed@root the-join-event-against-the-returned-state: event == root_joinEvent && userIDQuerier == root_userIDForSender
+
+//@ func VerifyEventAuthChain
+//@   property C14
+//@   nosafety
+//@   requires eventToVerify != nil && provideEvents != nil && userIDForSender != nil
+//@   ensures the-event-itself-is-checked: result == nil ==> called(checkAllowedByAuthEvents)
+//@   calls checkAllowedByAuthEvents@root shared-table-and-provider: missingAuth == root_provideEvents && userIDForSender == root_userIDForSender
+//@   loop 1: invariant !called(checkAllowedByAuthEvents) ==> (len(eventsToVerify) >= 1 && (forall id string :: !(id in verifiedEvents)))
+//@   loop 2: invariant 0 <= idx(2) && idx(2) <= len(curr.AuthEventIDs())
+//@   loop 3: invariant 0 <= idx(3) && idx(3) <= len(newEvents)
